@@ -65,6 +65,9 @@ structure Node where
   chan : Bool := false       -- channel `set`
   woken : Bool := false      -- the task's wake flag (ready list membership)
   first : Bool := true       -- `first_run`
+  paused : Bool := false     -- the effect's owner is paused (`Owner::pause`)
+  alive : Bool := true       -- `false` once the effect's owner was disposed (the `Arc<RwLock<EffectInner>>` is gone)
+  done : Bool := false       -- the task has finished (its stream ended)
   -- ghost
   running : Bool := false
   seen : List (Nat × Int × Nat) := []
@@ -106,9 +109,13 @@ def fuelFor (p : Prog) : Nat := p.length + 1
 
 def subscribe (l : List Nat) (x : Nat) : List Nat := if l.contains x then l else l ++ [x]
 
-/-- `Sender::notify` -/
+/-- `Sender::notify`: `set = true; waker.wake()`.  A disposed effect is only reachable through a dead
+`Weak`, so nothing happens.  The ghost event `woke` records a wake-up of a task that was not already woken. -/
 def notify (s : State) (id : Nat) : State :=
-  (s.upd id fun n => { n with chan := true, woken := true }).emit (.woke id)
+  if !(s.get id).alive then s else
+  let fresh := !(s.get id).woken
+  let s := s.upd id fun n => { n with chan := true, woken := true }
+  if fresh then s.emit (.woke id) else s
 
 /-- ghost: is a new run of `id` justified (first run, or a tracked input of the previous run has a new version)? -/
 def justified (s : State) (id : Nat) : Bool :=
@@ -131,7 +138,7 @@ def markCheck : Nat → State → Nat → State
 def markDirty (f : Nat) (s : State) (id : Nat) : State :=
   match (s.get id).kind with
   | .sig => s
-  | .eff => notify (s.upd id fun n => { n with dirty := true }) id
+  | .eff => if !(s.get id).alive then s else notify (s.upd id fun n => { n with dirty := true }) id
   | .memo =>
     let s := s.upd id fun n => { n with st := .dirty }
     (s.get id).subs.foldl (fun s x => markCheck f s x) s
@@ -246,6 +253,8 @@ def effLoop (p : Prog) (f : Nat) : Nat → State → Nat → State
   | k + 1, s, e =>
     if !(s.get e).chan then s else
     let s := s.upd e fun n => { n with chan := false }
+    -- `!owner.paused() && …`: a paused effect consumes the notification and does nothing
+    if (s.get e).paused then effLoop p f k s e else
     let saved := s.obs
     let (s, need) := effUpdate p f { s with obs := some e } e
     let s := { s with obs := saved }
@@ -262,20 +271,43 @@ def effLoop (p : Prog) (f : Nat) : Nat → State → Nat → State
       effLoop p f k s e
     else effLoop p f k s e
 
+/-- one run of an effect body (the inside of the `if` of the task loop) -/
+def runEffBody (p : Prog) (f : Nat) (s : State) (e : Nat) : State :=
+  let saved := s.obs
+  let s := clearSources s e
+  let old := (s.get e).val
+  let s := noteRun s e
+  let s := { s with obs := some e }
+  let (s, v) := evalE (readNode (upd p f)) (setSignal f) e (bodyOf p e) s
+  let s := { s with obs := saved }
+  s.upd e fun n =>
+    { n with val := some v, running := false, ver := (if old != some v then n.ver + 1 else n.ver) }
+
+/-- `RenderEffect::new`: `dirty: false`, no initial notification, the body runs synchronously at
+creation; afterwards the same task loop as `Effect::new` with `first_run = false`. -/
+def initRenderEffect (p : Prog) (s : State) (e : Nat) : State :=
+  let s := s.upd e fun n => { n with dirty := false, chan := false, woken := true, first := false }
+  runEffBody p (fuelFor p) s e
+
 /-- one poll of effect `e`'s task by the executor (the executor clears the wake flag first) -/
 def pollEff (p : Prog) (s : State) (e : Nat) : State :=
   let s := s.upd e fun n => { n with woken := false }
+  -- the `Sender` is gone: `Receiver::poll_next` yields `None`, the task ends
+  if !(s.get e).alive then s.upd e fun n => { n with done := true } else
   effLoop p (fuelFor p) 64 s e
 
 /-- live woken tasks in spawn order -/
 def ready (s : State) : List Nat :=
-  (List.range s.nodes.length).filter fun i => (s.get i).kind == .eff && (s.get i).woken
+  (List.range s.nodes.length).filter fun i => (s.get i).kind == .eff && (s.get i).woken && !(s.get i).done
 
 inductive Op where
   | set (id : Nat) (v : Int)
   | read (id : Nat)
   | poll (i : Nat)       -- poll the `i mod len`-th ready task
   | idle                 -- FIFO until no task is woken (bounded)
+  | pause (e : Nat)      -- `Owner::pause` on the owner the effect was created under
+  | resume (e : Nat)
+  | dispose (e : Nat)    -- clean up the owner the effect was created under
   deriving Repr, BEq, Inhabited, DecidableEq
 
 def pollNth (p : Prog) (s : State) (i : Nat) : State :=
@@ -297,6 +329,15 @@ def step (p : Prog) (s : State) : Op → State × Option Int
     (s, some v)
   | .poll i => (pollNth p s i, none)
   | .idle => (runIdle p 256 s, none)
+  | .pause e => (if (s.get e).kind == .eff then s.upd e fun n => { n with paused := true } else s, none)
+  | .resume e => (if (s.get e).kind == .eff then s.upd e fun n => { n with paused := false } else s, none)
+  | .dispose e =>
+    -- dropping the `Sender` wakes the task one last time (`impl Drop for Inner`)
+    (if (s.get e).kind == .eff && (s.get e).alive then
+       let fresh := !(s.get e).woken
+       let s := s.upd e fun n => { n with alive := false, woken := true }
+       if fresh then s.emit (.woke e) else s
+     else s, none)
 
 def run (p : Prog) (ops : List Op) : State := ops.foldl (fun s o => (step p s o).1) (initState p)
 
